@@ -264,6 +264,63 @@ func c02Check(c *Ctx, cs c02Case) *Failure {
 	} else {
 		c.Label("outcome:project")
 	}
+	// (d) the same ConfigDetails value loaded again: compose files handed over as parsed trees
+	// (ConfigFile.Config) are an input like any other, so a second load of the same value gives the same outcome
+	for _, skipInterp := range []bool{false, true} {
+		lcp := loadCase{Main: cs.Main, Env: map[string]string{"SECRET_token": "t", "SECRET_cert": "c", "SECRET_apikey": "k"}, Opts: loadOpts{SkipInterpolation: skipInterp}}
+		cd := lcp.details(root, false)
+		ok := true
+		for i := range cd.ConfigFiles {
+			src, err := os.ReadFile(cd.ConfigFiles[i].Filename)
+			if err != nil || strings.Contains(string(src), "\n---\n") {
+				ok = false
+				break
+			}
+			tree, err := loader.ParseYAML(src)
+			if err != nil {
+				ok = false
+				break
+			}
+			cd.ConfigFiles[i].Config = tree
+		}
+		if !ok {
+			continue
+		}
+		c.Label("parsed-tree-input")
+		type outcome struct {
+			err  error
+			yaml string
+		}
+		loadOnce := func() (o outcome, fail *Failure) {
+			fail = guard(func() *Failure {
+				p, err := loader.LoadWithContext(context.Background(), cd, lcp.Opts.apply)
+				o.err = err
+				if err == nil {
+					y, _ := p.MarshalYAML()
+					o.yaml = string(y)
+				}
+				return nil
+			})
+			return o, fail
+		}
+		o1, f := loadOnce()
+		if f != nil {
+			return f
+		}
+		for i := 0; i < 2; i++ {
+			o2, f := loadOnce()
+			if f != nil {
+				return f
+			}
+			what := fmt.Sprintf("same-ConfigDetails-with-parsed-trees-loaded-again:skip-interpolation=%v", skipInterp)
+			if (o1.err == nil) != (o2.err == nil) {
+				return failf("c02:outcome-differs:parsed-tree-reloaded", "%s: first load: %v, load %d: %v\n%s", what, o1.err, i+2, o2.err, desc())
+			}
+			if o1.yaml != o2.yaml {
+				return failf("c02:yaml-bytes-differ:parsed-tree-reloaded", "%s: the renderings of load 1 and load %d differ\n%s\n%s", what, i+2, firstDiffLines(o1.yaml, o2.yaml), desc())
+			}
+		}
+	}
 	// (c) history: other loads under the same names in the same directory, then the original again
 	orig := map[string]string{}
 	for _, f := range cs.Files {
